@@ -20,31 +20,37 @@
 (***************************************************************************)
 EXTENDS Integers, Sequences, FiniteSets, TLC, Json
 
-CONSTANTS Npt, NDirs, MaxLen
+CONSTANTS Npt, NDirs, MaxLen, NModels
 
-VARIABLES pt, rec, base, nextId, hist
-bvars == <<pt, rec, base, nextId, hist>>
+VARIABLES pt, rec, base, nextId, hist, gen
+bvars == <<pt, rec, base, nextId, hist, gen>>
+\* gen[m]: how many symmetric Broyden updates model m (objective = 1, then the constraint models) has
+\* received: every replacement updates EVERY model exactly once, whatever the conditioning
 
 BInit == /\ pt = [k \in 1..Npt |-> k] /\ rec = [k \in 1..Npt |-> k]
          /\ base = 1 /\ nextId = Npt + 1 /\ hist = <<>>
+         /\ gen = [m \in 1..NModels |-> 0]
 
 Replace(k, from, d) ==
   /\ pt' = [pt EXCEPT ![k] = nextId] /\ rec' = [rec EXCEPT ![k] = nextId]
   /\ nextId' = nextId + 1 /\ UNCHANGED base
+  /\ gen' = [m \in 1..NModels |-> gen[m] + 1]
   /\ hist' = Append(hist, [a |-> "replace", k |-> k, from |-> pt[from], d |-> d, id |-> nextId])
 
 ReplaceNear(k, j) ==
   /\ k # j
   /\ pt' = [pt EXCEPT ![k] = nextId] /\ rec' = [rec EXCEPT ![k] = nextId]
   /\ nextId' = nextId + 1 /\ UNCHANGED base
+  /\ gen' = [m \in 1..NModels |-> gen[m] + 1]
   /\ hist' = Append(hist, [a |-> "near", k |-> k, from |-> pt[j], d |-> 0, id |-> nextId])
 
 Shift(j) ==
-  /\ base' = pt[j] /\ UNCHANGED <<pt, rec, nextId>>
+  /\ base' = pt[j] /\ UNCHANGED <<pt, rec, nextId, gen>>
   /\ hist' = Append(hist, [a |-> "shift", k |-> j, from |-> pt[j], d |-> 0, id |-> 0])
 
 Reset ==
   /\ UNCHANGED <<pt, rec, base, nextId>>
+  /\ gen' = [m \in 1..NModels |-> 0]          \* the models are rebuilt
   /\ hist' = Append(hist, [a |-> "reset", k |-> 0, from |-> 0, d |-> 0, id |-> 0])
 
 \* arguments drawn at random and bound once (quantification over singletons)
@@ -60,5 +66,6 @@ BSpec == BInit /\ [][BNext]_bvars
 
 Recorded == rec = pt
 Distinct == \A a, b \in 1..Npt : a # b => pt[a] # pt[b]
-Export == Len(hist) = MaxLen => PrintT("EXPORT " \o ToJson([npt |-> Npt, hist |-> hist, pt |-> pt, base |-> base]))
+SameGeneration == \A m \in 1..NModels : gen[m] = gen[1]
+Export == Len(hist) = MaxLen => PrintT("EXPORT " \o ToJson([npt |-> Npt, hist |-> hist, pt |-> pt, base |-> base, gen |-> gen]))
 =============================================================================
